@@ -486,6 +486,20 @@ func seqPush(res *worker.Result, k *kase, tr truth, rng *rand.Rand) {
 		}
 	}
 
+	// malformed digests of the right length whose encoded part is a path to an existing file
+	{
+		var hexes []string
+		if preDesc != nil {
+			hexes = append(hexes, preDesc.Digest.Encoded())
+		}
+		if pushErr == nil && tr.PrefixOK && k.Algo == "sha256" {
+			hexes = append(hexes, hexOf("sha256", k.Stream[:k.Size]))
+		}
+		if !pathDigestProbes(res, k, t, views, d, hexes, rng, w) {
+			return
+		}
+	}
+
 	// follow-ups on the same store (good after bad, bad after good)
 	if pushErr != nil && rng.IntN(2) == 0 {
 		gd := ocispec.Descriptor{MediaType: k.Media, Digest: digest.Digest(dg("sha256", k.Base)), Size: int64(len(k.Base))}
@@ -667,6 +681,92 @@ func dataProbes(res *worker.Result, k *kase, views []fetchView, d ocispec.Descri
 				return false
 			}
 			res.Count("fetchall_embedded_data_ok", 1)
+		}
+	}
+	return true
+}
+
+// pathDigestProbes: descriptors whose digest is malformed but has a registered algorithm and
+// an encoded part of exactly the right length that is a relative path to an existing file of
+// the layout (index.json, oci-layout, another blob). Nothing may be visible or handed back
+// under a malformed digest, and a Push under it must fail.
+func pathDigestProbes(res *worker.Result, k *kase, t *target, views []fetchView, d ocispec.Descriptor, blobHexes []string, rng *rand.Rand, w func() map[string]any) bool {
+	type probe struct {
+		name, dg, rel string
+	}
+	ps := []probe{
+		{"sha256->index.json", pathDigest("sha256", "../../index.json"), "index.json"},
+		{"sha256->oci-layout", pathDigest("sha256", "../../oci-layout"), "oci-layout"},
+		{"sha384->index.json", pathDigest("sha384", "../../index.json"), "index.json"},
+		{"sha512->oci-layout", pathDigest("sha512", "../../oci-layout"), "oci-layout"},
+	}
+	for _, h := range blobHexes {
+		ps = append(ps,
+			probe{"sha512->blobs/sha256/<blob>", pathDigest("sha512", "../../blobs/sha256/"+h), "blobs/sha256/" + h},
+			probe{"sha512->../sha256/<blob>", pathDigest("sha512", "../sha256/"+h), "blobs/sha256/" + h},
+			probe{"sha384->../sha256/<blob>", pathDigest("sha384", "../sha256/"+h), "blobs/sha256/" + h})
+	}
+	root := ""
+	if t.blobsDir != "" {
+		root = filepath.Dir(t.blobsDir)
+	}
+	for _, p := range ps {
+		size := int64(11)
+		var fileBytes []byte
+		if root != "" {
+			if b, err := os.ReadFile(filepath.Join(root, filepath.FromSlash(p.rel))); err == nil {
+				size, fileBytes = int64(len(b)), b
+				res.Count("path_digest_targets_existing", 1)
+			}
+		}
+		pd := ocispec.Descriptor{MediaType: d.MediaType, Digest: digest.Digest(p.dg), Size: size, Annotations: d.Annotations}
+		for _, view := range views {
+			res.Count("path_digest_probes", 1)
+			bad := ""
+			if ro, ok := view.f.(content.ReadOnlyStorage); ok {
+				if ex, _ := ro.Exists(ctx, pd); ex {
+					bad = "Exists returned true"
+				}
+			}
+			if rc, err := view.f.Fetch(ctx, pd); err == nil {
+				data, _ := io.ReadAll(rc)
+				rc.Close()
+				bad = fmt.Sprintf("Fetch handed back %d bytes (%s)", len(data), short(data))
+			}
+			if got, err := content.FetchAll(ctx, view.f, pd); err == nil {
+				bad = fmt.Sprintf("FetchAll handed back %d bytes without error", len(got))
+			}
+			if bad != "" {
+				m := w()
+				m["fetchall_view"] = view.name
+				m["malformed_digest"] = p.dg
+				m["resolves_to"] = p.rel
+				res.Violate("malformed-digest-visible:"+k.Store+":"+view.name+":"+p.name, "under a descriptor whose digest is malformed (right length, path elements): "+bad, m)
+				return false
+			}
+		}
+		// a Push under the malformed digest, offering the bytes of the file it would resolve to
+		if rng.IntN(4) == 0 {
+			before := listing(t.blobsDir)
+			body := fileBytes
+			if body == nil {
+				body = randBytes(rng, int(size))
+			}
+			err := t.st.Push(ctx, pd, bytes.NewReader(body))
+			res.Count("path_digest_pushes", 1)
+			if err == nil {
+				m := w()
+				m["malformed_digest"] = p.dg
+				res.Violate("bad-push-accepted:"+k.Store+":malformed-path-digest:"+p.name, "Push returned nil for a descriptor whose digest is malformed (right length, path elements)", m)
+				return false
+			}
+			if diff := listingDiff(before, listing(t.blobsDir)); len(diff) > 0 {
+				m := w()
+				m["malformed_digest"] = p.dg
+				m["blobs_diff"] = diff
+				res.Violate("blobs-changed-by-refused-push:"+k.Store+":malformed-path-digest:"+p.name, fmt.Sprintf("blobs/ changed: %v", diff), m)
+				return false
+			}
 		}
 	}
 	return true
